@@ -42,6 +42,46 @@ PROPS = {
         ],
         "assumptions": ["tag keys/values are opaque (never inspected by the stream): modelled as naturals"],
     },
+    "C03": {
+        "required_theorems": ["c03_invariant", "c03_windows_disjoint", "c03_reader_sees_committed",
+                              "c03_consumed_prefix", "c03_bookkeeping_atomic", "c03_ceiling_never_fires"],
+        "runs": [
+            {"sub": "conc", "quick": ["--seed", "{seed}", "--cases", 2000, "--max-steps", 60, "--stress", 4,
+                                      "--stress-total", 200000],
+             "thorough": ["--seed", "{seed}", "--cases", 100000, "--max-steps", 120, "--stress", 40,
+                          "--stress-total", 2000000]},
+        ],
+        "rule": "random interleavings of producer steps (acquire, store cell i, commit n) and consumer steps (acquire, load "
+                "cell j, consume m) with both windows held across the other side's steps, pre-advanced to the wrap point; "
+                "every load compared with the Lean model; plus free-running two-thread stress runs (self-checking).",
+        "trusted_base": GLOBAL_TB + [
+            "modelled, not verified: each mutex critical section is one atomic step (boundaries read from the source); "
+            "sequential consistency of those steps; Mutex acquire/release publishes cell writes before the commit is seen "
+            "(hardware/compiler memory model is outside the model: PARTIAL)",
+            "protocol hypothesis: each side has at most one live window and does not use it after commit/consume",
+        ],
+        "assumptions": ["one producer thread, one consumer thread"],
+    },
+    "C04": {
+        "required_theorems": ["c04_reader_wait_sound", "c04_reader_eof_sound", "c04_nc_wait_sound", "c04_nc_eof_sound",
+                              "c04_writer_wait_sound", "c04_no_discard", "c04_arrives"],
+        "runs": [
+            {"sub": "waits", "quick": ["--seed", "{seed}", "--races", 6],
+             "thorough": ["--seed", "{seed}", "--races", 200], "timeout": 6000},
+        ],
+        "rule": "sequential grid (amount x need x peer alive) of every decision function against the Lean model run on the "
+                "GENERATED read order; deterministic replays on real threads (verif::point hook) of the witness schedule "
+                "'decider stopped between its reads; peer commits its last data and goes away' for each decision function, "
+                "plus arrival checks. distinct = distinct request.",
+        "trusted_base": GLOBAL_TB + [
+            "tools/extract.py reads the order of the amount read and the liveness read from src/stream.rs as textual order "
+            "inside each function body (straight-line code assumed); lean/RR/Gen/Waits.lean is regenerated on every run",
+            "modelled, not verified: Arc::strong_count == 1 means 'the peer handle is gone' and never becomes false again; "
+            "the amount is read under the lock",
+            "PARTIAL: that a wait call completes (OS scheduling, the 100 ms timeout) is assumed",
+        ],
+        "assumptions": [],
+    },
 }
 
 MANIFEST_TEXT = {
@@ -67,6 +107,30 @@ MANIFEST_TEXT = {
         "note": "Trusted as C01. Tag keys/values are opaque naturals in the model. The property's premise 'committed together with a "
                 "sample' is the explicit hypothesis tag.pos < n.",
         "technique": "Lean 4 refinement proof (tags live on FIFO elements) + differential correspondence check",
+    },
+    "C03": {
+        "text": "Lean 4 theorems over the two-thread protocol model RR.Conc: for EVERY schedule (arbitrary list of atomic "
+                "critical sections and non-atomic cell accesses of a producer and a consumer) the invariant holds, live write "
+                "and read windows are disjoint, and every value the consumer loads is the element of the committed history at "
+                "consumed+j; counters are consistent at every query; the handle-count ceiling never fires for protocol-"
+                "following threads. Induction over the schedule: no bound on length, no fairness needed. Tied to the code by "
+                "replaying random interleavings step-for-step on a real stream and by two-thread stress runs.",
+        "design_ref": "DESIGN.md section 2, C03",
+        "note": "PARTIAL: proof is over sequentially-consistent atomic steps; the hardware/compiler memory model (that Mutex "
+                "release/acquire publishes the cell writes) is trusted, as is `unsafe impl Sync for Circ` under it.",
+        "technique": "Lean 4 invariant proof by induction over arbitrary interleavings + step-for-step correspondence",
+    },
+    "C04": {
+        "text": "Lean 4 theorems SoundReader/SoundWriter/Arrives about the decision programs GENERATED from src/stream.rs on "
+                "every run (order of the amount read and the liveness read in wait_for_read, wait_for_write, eof, "
+                "NCReadStream::wait/eof, NCWriteStream::wait): under every interleaving with the peer's last commits and its "
+                "drop a `true` verdict implies peer gone and fewer than need available, stays true, discards nothing; and one "
+                "completed call after the peer is gone gives `true`. A reordering in the source breaks `lake build`; the "
+                "witness schedule is then replayed on real threads through the verif::point hook.",
+        "design_ref": "DESIGN.md section 2, C04",
+        "note": "PARTIAL for 'bounded number of waits': completion of a wait call (OS scheduling, 100 ms timeout) is assumed. "
+                "Trusted: extract.py's textual-order reading of straight-line code; strong_count semantics.",
+        "technique": "Lean 4 proof over translator-generated decision programs + hook-driven race replay on real threads",
     },
 }
 
